@@ -186,6 +186,7 @@ def run(sc) -> RunResult:
     from cspuz import expr as E
 
     res = RunResult()
+    core.fresh_z3_context()
     res.log("start", ID, sc.get("seed"), sc["route"], sc.get("backend"))
     route = sc["route"]
     ctx = peers.SimContext(res, policy=sc.get("policy"), quirks=sc.get("quirks"), native=(route == "D"))
